@@ -786,6 +786,59 @@ fn pick_n(rng: &mut Rng) -> i64 {
     *rng.pick(NS)
 }
 
+/// Zones whose offset changes put LOCAL MIDNIGHT in a DST gap or overlap, so that the day / week /
+/// month / year TARGETS of the repaired algorithm are `None` (stepped forward) or `Ambiguous`:
+/// (zone, scan window). POSIX rule strings are independent of the installed zoneinfo.
+///  * 23:30 -> 00:30 and 00:30 -> 23:30 shifts: midnight strictly inside the gap / overlap, any day,
+///    1 January + 1 July (year and month targets), Mondays (week targets);
+///  * southern-hemisphere rules with 00:00 -> 01:00 and 24:00 -> 23:00 (midnight is the first
+///    missing instant / the end of the overlap), as America/Sao_Paulo had until 2019.
+const MIDNIGHT_ZONES: &[(&str, i64, i64)] = &[
+    ("ZST1ZDT,M3.2.6/23:30,M11.1.0/0:30", 1_767_225_600, 1_924_992_000),
+    ("AST-1ADT,J365/23:30,J182/0:30", 1_767_225_600, 1_924_992_000),
+    ("BST-4BDT,M3.2.0/23:30,M10.2.1/0:30", 1_767_225_600, 1_924_992_000),
+    ("<-03>3<-02>,M11.1.0/0,M2.3.0/0", 1_767_225_600, 1_924_992_000),
+    ("America/Sao_Paulo", 1_483_228_800, 1_577_836_800),
+];
+const MIDNIGHT_ZONES_THOROUGH: &[(&str, i64, i64)] = &[
+    ("<-04>4<-03>,M9.1.6/24,M4.1.6/24", 1_767_225_600, 2_082_758_400),
+    ("America/Havana", 1_483_228_800, 2_082_758_400),
+    ("America/Santiago", 1_483_228_800, 2_200_000_000),
+    ("America/Asuncion", 1_483_228_800, 1_767_225_600),
+];
+
+fn midnight_block(emit: &mut dyn FnMut(String), thorough: bool) {
+    let mut zones: Vec<(&str, i64, i64)> = MIDNIGHT_ZONES.to_vec();
+    if thorough {
+        zones.extend_from_slice(MIDNIGHT_ZONES_THOROUGH);
+    }
+    for (tz, from, to) in zones {
+        let to = if thorough { to + 315_360_000 } else { to };
+        let ans = ask(tz, &format!("transitions\t{}\t{}", from, to));
+        let ts: Vec<i64> = dec_list(',', &ans)
+            .iter()
+            .filter_map(|s| s.split(':').next().and_then(|x| x.parse().ok()))
+            .collect();
+        for t in ts {
+            // `current` from two days before the change to 90 minutes after it
+            for d in [-176_400i64, -90_000, -5_400, -2_700, -1_800, -900, -1, 900, 1_800, 5_400] {
+                for unit in ["day", "week", "month", "year"] {
+                    for nn in [1i64, 2] {
+                        for modulate in [false, true] {
+                            push_case(emit, "next", tz, (t + d, 0), unit, nn, modulate, 0, &[]);
+                        }
+                    }
+                }
+            }
+            // a history through the real appender across the change
+            let arrivals: Vec<(i64, u32)> =
+                [-1_800i64, -900, 900, 1_800, 5_400, 90_000].iter().map(|d| (t + d, 7)).collect();
+            push_case(emit, "trig", tz, (t - 2_700, 0), "day", 1, false, 0, &arrivals);
+            push_case(emit, "trig", tz, (t - 2_700, 0), "week", 1, true, 5, &arrivals);
+        }
+    }
+}
+
 pub fn gen(rng: &mut Rng, n: usize, thorough: bool, emit: &mut dyn FnMut(String)) {
     let zones: &[&str] = if thorough { ZONES_ALL } else { ZONES_QUICK };
     let infos: Vec<ZoneInfo> = zones.iter().map(|z| zone_info(z, thorough)).collect();
@@ -807,6 +860,8 @@ pub fn gen(rng: &mut Rng, n: usize, thorough: bool, emit: &mut dyn FnMut(String)
             }
         }
     }
+    // 1b. local midnight in a gap / overlap (targets of the day, week, month and year units)
+    midnight_block(emit, thorough);
     // 2. absurd multipliers ("any configured interval")
     let absurd: &[i64] = &[
         i64::MAX,
